@@ -10,12 +10,14 @@ import (
 	"os"
 	"os/exec"
 	"path/filepath"
+	"sort"
 	"strings"
 	"time"
 
 	"github.com/invopop/gobl"
 	"github.com/invopop/gobl/cbc"
 	"github.com/invopop/gobl/dsig"
+	"github.com/invopop/gobl/head"
 	"github.com/invopop/gobl/l10n"
 	"github.com/invopop/gobl/org"
 	"github.com/invopop/gobl/tax"
@@ -313,6 +315,61 @@ func runC04(c *Ctx) {
 			}
 		}
 	}
+	// regime × tag × customer country: every tag a regime (or an addon) offers for
+	// invoices, with a customer at home, abroad under another regime, and abroad
+	// without one; the first line names a rate of the regime's first category by key
+	if b, err := os.ReadFile(filepath.Join(ev.Repo(), "examples/es/out/invoice-es-es.json")); err == nil {
+		doc, _ := gx.DocJSON(b)
+		var regs []string
+		for r := range w.defs.Regimes {
+			regs = append(regs, r)
+		}
+		sort.Strings(regs)
+		for _, r := range regs {
+			reg := w.defs.Regimes[r]
+			tags := map[string]bool{}
+			for _, ts := range reg.Tags {
+				if ts.Schema == "bill/invoice" {
+					for _, k := range ts.List {
+						tags[k.Key] = true
+					}
+				}
+			}
+			var tl []string
+			for t := range tags {
+				tl = append(tl, t)
+			}
+			sort.Strings(tl)
+			var combo *jmut.Node
+			for _, cat := range reg.Categories {
+				if cat.Retained || len(cat.Rates) == 0 {
+					continue
+				}
+				combo = jmut.O(jmut.Member{Key: "cat", Val: jmut.S(cat.Code)}, jmut.Member{Key: "rate", Val: jmut.S(cat.Rates[0].Key)})
+				break
+			}
+			for _, tag := range tl {
+				for _, cc := range []string{r, "ES", "PT", "JP"} {
+					n, _ := jmut.Parse(doc)
+					n.Del("totals")
+					n.Del("$regime")
+					n.Del("$addons")
+					n.Get("supplier").Get("tax_id").Set("country", jmut.S(r))
+					n.Get("supplier").Get("tax_id").Del("code")
+					n.Set("customer", jmut.O(jmut.Member{Key: "name", Val: jmut.S("Customer")}, jmut.Member{Key: "tax_id", Val: jmut.O(jmut.Member{Key: "country", Val: jmut.S(cc)})}))
+					n.Set("currency", jmut.S(reg.Currency))
+					n.Set("$tags", jmut.Ar(jmut.S(tag)))
+					for li, l := range n.Get("lines").A {
+						l.Del("taxes")
+						if li == 0 && combo != nil {
+							l.Set("taxes", jmut.Ar(combo.Clone()))
+						}
+					}
+					inputs = append(inputs, c04input{Origin: "regime-tag-customer:" + r + ":" + tag + ":" + cc, Data: n.Bytes(), Class: "regime-tag"})
+				}
+			}
+		}
+	}
 	nGen := c.N(3000, 150000)
 	rng := c.Rand(0)
 	g := gen.New(rng, w.defs)
@@ -397,30 +454,14 @@ func runC04(c *Ctx) {
 				}
 			}
 		}
-		// read-only operations leave the envelope alone
-		before, _ := json.Marshal(env)
-		fpB, _ := walk.Fingerprint(env)
-		ops := map[string]func(){
-			"validate": func() { _ = env.Validate() },
-			"digest":   func() { _, _ = env.Digest() },
-			"verify":   func() { _ = env.Verify(); _ = env.Verify(c04key.Public()) },
-			"extract":  func() { _ = env.Extract() },
-			"signed":   func() { _ = env.Signed() },
-			"options":  func() { _, _ = env.CorrectionOptionsSchema() },
-		}
-		for name, op := range ops {
-			if p, _ := Safely(op); p != nil {
-				c.R.Count("panics_in_readonly_ops", 1)
-				continue
+		// read-only operations leave the envelope alone: the calculated envelope, and
+		// the same envelope signed and dressed (stamps, links, tags, meta; also with
+		// null rows in the header lists, which parsing accepts)
+		readOnly(c, in.Origin, env, wit)
+		if i%3 == 0 {
+			for _, dressed := range c04dressed(env) {
+				readOnly(c, in.Origin+" (signed, "+dressed.name+")", dressed.env, wit)
 			}
-			after, _ := json.Marshal(env)
-			fpA, _ := walk.Fingerprint(env)
-			if !bytes.Equal(before, after) || fpA != fpB {
-				cls, det := firstJSONDiff(before, after)
-				c.R.Fail("mutated-by:"+name, fmt.Sprintf("%s: %s changed the envelope (%s %s; fingerprint %x→%x)", in.Origin, name, cls, det, fpB, fpA), wit())
-				before, fpB = after, fpA
-			}
-			c.R.Count("readonly_ops_checked", 1)
 		}
 		if i%401 == 0 {
 			c.R.Sample(map[string]any{"origin": in.Origin, "class": in.Class, "sha256_of_calculated_envelope": hashes[i]})
@@ -574,4 +615,93 @@ func childC04(args []string) int {
 		fmt.Fprintln(out, c04hash(b1))
 	}
 	return 0
+}
+
+type c04dress struct {
+	name string
+	env  *gobl.Envelope
+}
+
+// c04dressed signs a copy of the envelope, fills its header and returns it in
+// several serialised-and-reparsed forms.
+func c04dressed(env *gobl.Envelope) []c04dress {
+	b, err := json.Marshal(env)
+	if err != nil {
+		return nil
+	}
+	cp, err := gx.ParseEnvelope(b)
+	if err != nil {
+		return nil
+	}
+	var serr error
+	if p, _ := Safely(func() { serr = cp.Sign(c04key) }); p != nil || serr != nil {
+		return nil
+	}
+	cp.Head.AddStamp(&head.Stamp{Provider: "verif-a", Value: "A"})
+	cp.Head.AddStamp(&head.Stamp{Provider: "verif-b", Value: "B"})
+	cp.Head.AddStamp(&head.Stamp{Provider: "verif-c", Value: "C"})
+	cp.Head.AddLink(&head.Link{Key: "one", URL: "https://example.com/1"})
+	cp.Head.AddLink(&head.Link{Key: "two", URL: "https://example.com/2"})
+	cp.Head.Tags = []string{"t1", "t2"}
+	cp.Head.Meta = cbc.Meta{"k": "v"}
+	sb, err := json.Marshal(cp)
+	if err != nil {
+		return nil
+	}
+	var out []c04dress
+	add := func(name string, edit func(n *jmut.Node)) {
+		n, err := jmut.Parse(sb)
+		if err != nil {
+			return
+		}
+		if edit != nil {
+			edit(n)
+		}
+		if e, err := gx.ParseEnvelope(n.Bytes()); err == nil {
+			out = append(out, c04dress{name, e})
+		}
+	}
+	insertNull := func(list *jmut.Node, at int) {
+		if list == nil || list.K != jmut.Arr || at > len(list.A) {
+			return
+		}
+		list.A = append(list.A[:at], append([]*jmut.Node{jmut.Nl()}, list.A[at:]...)...)
+	}
+	add("header filled", nil)
+	add("null stamp row inside", func(n *jmut.Node) { insertNull(n.Get("head").Get("stamps"), 1) })
+	add("null stamp row first", func(n *jmut.Node) { insertNull(n.Get("head").Get("stamps"), 0) })
+	add("null link row inside", func(n *jmut.Node) { insertNull(n.Get("head").Get("links"), 1) })
+	add("stamps reversed", func(n *jmut.Node) {
+		if st := n.Get("head").Get("stamps"); st != nil && len(st.A) == 3 {
+			st.A[0], st.A[2] = st.A[2], st.A[0]
+		}
+	})
+	return out
+}
+
+func readOnly(c *Ctx, origin string, env *gobl.Envelope, wit func() map[string]any) {
+	before, _ := json.Marshal(env)
+	fpB, _ := walk.Fingerprint(env)
+	ops := map[string]func(){
+		"validate": func() { _ = env.Validate() },
+		"digest":   func() { _, _ = env.Digest() },
+		"verify":   func() { _ = env.Verify(); _ = env.Verify(c04key.Public()) },
+		"extract":  func() { _ = env.Extract() },
+		"signed":   func() { _ = env.Signed() },
+		"options":  func() { _, _ = env.CorrectionOptionsSchema() },
+	}
+	for name, op := range ops {
+		if p, _ := Safely(op); p != nil {
+			c.R.Count("panics_in_readonly_ops", 1)
+			continue
+		}
+		after, _ := json.Marshal(env)
+		fpA, _ := walk.Fingerprint(env)
+		if !bytes.Equal(before, after) || fpA != fpB {
+			cls, det := firstJSONDiff(before, after)
+			c.R.Fail("mutated-by:"+name, fmt.Sprintf("%s: %s changed the envelope (%s %s; fingerprint %x→%x)", origin, name, cls, det, fpB, fpA), wit())
+			before, fpB = after, fpA
+		}
+		c.R.Count("readonly_ops_checked", 1)
+	}
 }
